@@ -88,7 +88,27 @@ func (k *Key) SignRaw(msg []byte) []byte {
 }
 
 // SignRS is RFC 6979 deterministic ECDSA over P-256 with HMAC-SHA256.
-func (k *Key) SignRS(digest []byte) (*big.Int, *big.Int) {
+func (k *Key) SignRS(digest []byte) (*big.Int, *big.Int) { return k.SignRSWhere(digest, nil) }
+
+// SignRawWhere is SignRaw restricted to signatures whose 32-byte big-endian r and s satisfy want.
+func (k *Key) SignRawWhere(msg []byte, want func(r, s []byte) bool) []byte {
+	h := sha256.Sum256(msg)
+	r, s := k.SignRSWhere(h[:], func(r, s *big.Int) bool {
+		var rb, sb [32]byte
+		r.FillBytes(rb[:])
+		s.FillBytes(sb[:])
+		return want(rb[:], sb[:])
+	})
+	out := make([]byte, 64)
+	r.FillBytes(out[:32])
+	s.FillBytes(out[32:])
+	return out
+}
+
+// SignRSWhere walks the RFC 6979 nonce sequence (the standard's own "try the next k" step) until the
+// signature satisfies want; every member of the sequence is a valid ECDSA signature of digest. A nil
+// want takes the first one, which is the RFC 6979 signature.
+func (k *Key) SignRSWhere(digest []byte, want func(r, s *big.Int) bool) (*big.Int, *big.Int) {
 	c := elliptic.P256()
 	n := c.Params().N
 	qlen := n.BitLen()
@@ -140,7 +160,7 @@ func (k *Key) SignRS(digest []byte) (*big.Int, *big.Int) {
 				s.Add(s, zmod)
 				s.Mul(s, kinv)
 				s.Mod(s, n)
-				if s.Sign() != 0 {
+				if s.Sign() != 0 && (want == nil || want(r, s)) {
 					return r, s
 				}
 			}
